@@ -27,7 +27,7 @@ ASSUMPTIONS = ["every coordinate is 0 or |x| > 1e-5 (true for lattice projection
                "makes q and -q both 'upper', which no generator can produce)", "float modelled by the reals"]
 FUNCTIONS += ["molgri.space.polytopes.Cube4DPolytope.get_half_of_hypercube", "utils.which_row_is_k", "rotobj.FullDivCube4DRotations._gen_grid", "rotobj.Cube4DRotations._gen_grid"]
 STUBS += ["`halfsel` shapes: Cube4DPolytope -> stand-in holding a given node array (8 antipodal pairs in a scrambled central-index order; the graph, "
-          "its subdivision and the projection are a concrete run: outside); the REAL get_half_of_hypercube is borrowed from the class",
+          "its subdivision and the projection are a concrete run: outside) -- a real SUBCLASS of Cube4DPolytope: get_half_of_hypercube, _check_N ... are the package's own code",
           "`halfsel`: branch feasibility is first decided on the linear part of the path condition (sound for `infeasible`; a linear condition "
           "that is feasible there is taken as feasible); sqrt of a row's squared norm is 1 when the unit-norm assumptions alone imply it"]
 OUTSIDE = ["that the polytope / random generators return N pairwise distinct, well separated unit points for every N (concrete run, DESIGN section 6)",
@@ -311,26 +311,44 @@ def _hs_premises(a, b, za, zb):
     return pre
 
 
-class _HSPoly:
-    """stand-in for Cube4DPolytope at one subdivision level: the node array (central-index order) is given; the real
-    get_half_of_hypercube is borrowed from the class"""
-    nodes = None
+class _GraphStub:
+    """what is left of the networkx graph in the stand-in: the number of nodes"""
+    def __init__(self, n):
+        self.n = n
 
-    def __init__(self):
-        self.divides = 0
+    def number_of_nodes(self):
+        return self.n
 
-    def divide_edges(self):
-        self.divides += 1
-        if self.divides > 3:
-            raise RuntimeError("stand-in polytope subdivided more than three times")
-
-    def get_nodes(self, N=None, projection=False):
-        arr = type(self).nodes.copy()
-        return arr if N is None else arr[:N]
+    def __len__(self):
+        return self.n
 
 
 def _hs_poly_class(P, nodes):
-    return type("HSPoly", (_HSPoly,), {"nodes": nodes, "get_half_of_hypercube": P.Cube4DPolytope.get_half_of_hypercube})
+    """stand-in for Cube4DPolytope at one subdivision level: a REAL subclass (every method of the class and its base is the package's
+    own code -- get_half_of_hypercube, _check_N, ...); only the graph construction, the subdivision and the node getter are replaced:
+    the node array (central-index order) is given"""
+    class HSPoly(P.Cube4DPolytope):
+        def __init__(self):
+            self.d = 4
+            self.current_level = 0
+            self.side_len = 1.0
+            self.divides = 0
+            self.G = _GraphStub(len(nodes))
+
+        def divide_edges(self):
+            self.divides += 1
+            if self.divides > 3:
+                raise RuntimeError("stand-in polytope subdivided more than three times")
+
+        def get_nodes(self, N=None, projection=False):
+            arr = nodes.copy()
+            return arr if N is None else arr[:N]
+    return HSPoly
+
+
+def _hs_standin_artefact(exc):
+    """an exception that comes from what the stand-in does not have (not from the code under test) is a harness error, never a verdict"""
+    return isinstance(exc, AttributeError) and any(w in str(exc) for w in ("_GraphStub", "HSPoly"))
 
 
 def _hs_build(RO, alg):
@@ -382,6 +400,9 @@ def run_halfsel(shape):
             acc.reach(prover.satisfiable(path.premises))
         cexinfo = lambda: {"model": _hs_model(path)}      # noqa: E731
         if path.kind == "exc":
+            if _hs_standin_artefact(path.value):
+                from symx.core import Unsupported
+                raise Unsupported(f"the polytope stand-in lacks what the code asks for: {path.value!r}")
             acc.structural("no_exception", False, detail=repr(path.value) + (path.tb or "")[-500:], cex=dict(cexinfo(), kind="exception", exc=type(path.value).__name__))
             continue
         full, half, n_ = path.value
@@ -467,6 +488,8 @@ def replay_halfsel(cex):
                 g.gen_grid()
                 full, half = np.asarray(g.get_grid_as_array(only_upper=False), dtype=float), np.asarray(g.get_grid_as_array(), dtype=float)
         except Exception as e:  # noqa: BLE001
+            if _hs_standin_artefact(e):
+                return {"reproduced": False, "detail": f"the polytope stand-in lacks what the code asks for: {e!r}"}
             return {"reproduced": True, "detail": f"a={a.tolist()} b={b.tolist()}: raised {e!r}"}
         finally:
             RO.HalfRotobjVoronoi, RO.Cube4DPolytope = old
